@@ -1007,6 +1007,8 @@ class Interp:
                 env[g] = cand
             else:
                 env[g] = core.fresh(parse_ty(gty), g)
+        if c.traced and self.mode == "code":
+            st.env["__trace__"] = st.env.get("__trace__", ()) + ((c.qualname, dict(env)),)
         cst = State(env, st.pc, st.decisions, st.assumed)
         cmod = contract_module(c)
         for g, gexpr in c.where.items():
